@@ -48,7 +48,7 @@ func init() {
 	register("C01", func(e *Env) {
 		renderPrelude()
 		e.perShard = 60
-		e.rep.Rule = "a payload string (full byte alphabet incl. < > & ' \", pre-formed entities, multi-byte runes, invalid UTF-8) bound as a Go string, as a struct field, map value and slice element, and the same payload as template.HTML / raw(): moved through compositions (depth 1..3) of the plumbing routes let, assignment, array, hash, nested index, Go helper, user function (result and emitted argument), for (value and keyed), if/else, block helper with own context, contentFor/contentOf (+data, +default block), partial (+layout); helpers with template.HTML-typed parameters fed plain strings (must be rejected or stay escaped); oracle: between two markers the output must be exactly html-escape(payload) for strings and exactly the payload, once, for trusted HTML; distinct by (payload, route composition, kind)"
+		e.rep.Rule = "a payload string (full byte alphabet incl. < > & ' \", pre-formed entities, multi-byte runes, invalid UTF-8) bound as a Go string, as a struct field, map value and slice element, and the same payload as template.HTML / raw(): moved through compositions (depth 1..3) of the plumbing routes let, assignment, array, hash, nested index, Go helper, user function (result and emitted argument), for (value and keyed), if/else, block helper with own context, contentFor/contentOf (+data, +default block), partial (+layout); helpers with template.HTML-typed parameters fed plain strings, and trusted HTML as the left operand of + with a plain string (both must be rejected or stay escaped); oracle: between two markers the output must be exactly html-escape(payload) for strings and exactly the payload, once, for trusted HTML; distinct by (payload, route composition, kind)"
 		payloads := []string{`<b>&'"x`, `a&amp;b`, `</script><script>`, `'"`, `plain`, "é世<😀>", "\xff<\x80>", `&#34;&lt;`, "<", ">", "&", " "}
 		parts := map[string]string{"echo": `<%= who %>`, "lay": `(<%= yield %>)`}
 		sources := []struct {
@@ -154,6 +154,21 @@ func init() {
 				}
 				if o.Class == "OK" && p != template.HTMLEscapeString(p) && strings.Contains(o.Out, p) {
 					e.Violate("c01-escape", fmt.Sprintf("%s: the plain string %q was bound to a template.HTML parameter and came out raw: %q", t, p, o.Out), map[string]interface{}{"case": c, "observed": o})
+				}
+			}
+			// operators: trusted HTML combined with a plain string must not yield trusted HTML that
+			// contains the string raw (an error is fine; so is an escaped result)
+			for _, t := range []string{"[[<%= raw(\"\") + p %>]]", "[[<%= hi + p %>]]", "<% let y = hi + p %>[[<%= y %>]]", "<% let g = fn(a, b) { return a + b } %>[[<%= g(raw(\"\"), p) %>]]",
+				"[[<%= mkhtml(\"<u>\") + p %>]]", "[[<%= hi + \"\" + p %>]]", "[[<%= for (v) in ss { %><%= hi + v %><% } %>]]", "[[<%= [hi + p][0] %>]]", "[[<%= (hi + o.Name) %>]]"} {
+				c := RCase{Tmpl: t, Binds: append(append([]Bind{}, binds...), Bind{"hi", vHTML("<i>")}, Bind{"mkhtml", vGo(102)})}
+				o := runRender(c)
+				e.rep.Evaluations++
+				e.Count("html-plus-string")
+				if o.Class == "PANIC" {
+					e.Violate("eval-panic@"+siteOf(o.Msg), fmt.Sprintf("Render panicked on %q: %s", t, o.Msg), map[string]interface{}{"case": c, "observed": o})
+				}
+				if o.Class == "OK" && p != template.HTMLEscapeString(p) && strings.Contains(o.Out, p) {
+					e.Violate("c01-escape", fmt.Sprintf("%s: the plain string %q was joined to trusted HTML and came out raw: %q", t, p, o.Out), map[string]interface{}{"case": c, "observed": o})
 				}
 			}
 			c := RCase{Tmpl: "[[<%= boldh(hp) %>]]|[[<%= boldh(raw(p)) %>]]|[[<%= joinh(\"-\", hp, hp) %>]]", Binds: binds}
